@@ -210,7 +210,11 @@ func oracleC04(c c4Case) error {
 		}
 		return nil
 	}
-	for i := 0; i < 2; i++ {
+	repeats := 2
+	if os.Getenv("VT_TIER") == "thorough" {
+		repeats = 5
+	}
+	for i := 0; i < repeats; i++ {
 		if err := initial.Restore(dir); err != nil {
 			panic("harness: restore: " + err.Error())
 		}
@@ -226,7 +230,11 @@ func oracleC04(c c4Case) error {
 			return err
 		}
 	}
-	for ci := 0; ci < c.Children; ci++ {
+	children := c.Children
+	if os.Getenv("VT_TIER") == "thorough" {
+		children += 2
+	}
+	for ci := 0; ci < children; ci++ {
 		if err := initial.Restore(dir); err != nil {
 			panic("harness: restore: " + err.Error())
 		}
